@@ -363,8 +363,8 @@ int deregister_ctx_src(m_ctx_t *c, ev_src_t **src) {
 int register_mod_src(m_mod_t *mod, m_src_types type, const void *src_data,
                          m_src_flags flags, const void *userptr) {
     M_MOD_ASSERT(mod);
-    M_MOD_CONSUME_TOKEN(mod);
     M_SRC_ASSERT_PRIO_FLAGS();
+    M_MOD_CONSUME_TOKEN(mod);
     
     M_ASSERT(type < M_SRC_TYPE_END);
     
